@@ -545,6 +545,35 @@ Fixpoint b64_display_w (w : writer) (bs : list N) : outcome (writer * bool) :=
       b64_display_w w4 rest end end end end
   end.
 
+(* base32 display_hex: f.write_char(ch(..))? one after the other *)
+Fixpoint w_seq (w : writer) (l : list (outcome N)) : outcome (writer * bool) :=
+  match l with
+  | [] => Ok (w, true)
+  | oc :: r => do c <- oc;
+               match w_chars w [c] with Some w' => w_seq w' r | None => Ok (w, false) end
+  end.
+Fixpoint b32_display_w (w : writer) (bs : list N) : outcome (writer * bool) :=
+  match bs with
+  | [] => Ok (w, true)
+  | [c0] => w_seq w [b32_ch (b32_e0 c0 0 0 0 0); b32_ch (b32_e1_last c0 0 0 0 0)]
+  | [c0; c1] =>
+      w_seq w [b32_ch (b32_e0 c0 c1 0 0 0); b32_ch (b32_e1 c0 c1 0 0 0); b32_ch (b32_e2 c0 c1 0 0 0);
+               b32_ch (b32_e3_last c0 c1 0 0 0)]
+  | [c0; c1; c2] =>
+      w_seq w [b32_ch (b32_e0 c0 c1 c2 0 0); b32_ch (b32_e1 c0 c1 c2 0 0); b32_ch (b32_e2 c0 c1 c2 0 0);
+               b32_ch (b32_e3 c0 c1 c2 0 0); b32_ch (b32_e4_last c0 c1 c2 0 0)]
+  | [c0; c1; c2; c3] =>
+      w_seq w [b32_ch (b32_e0 c0 c1 c2 c3 0); b32_ch (b32_e1 c0 c1 c2 c3 0); b32_ch (b32_e2 c0 c1 c2 c3 0);
+               b32_ch (b32_e3 c0 c1 c2 c3 0); b32_ch (b32_e4 c0 c1 c2 c3 0); b32_ch (b32_e5 c0 c1 c2 c3 0);
+               b32_ch (b32_e6_last c0 c1 c2 c3 0)]
+  | c0 :: c1 :: c2 :: c3 :: c4 :: rest =>
+      do r <- w_seq w [b32_ch (b32_e0 c0 c1 c2 c3 c4); b32_ch (b32_e1 c0 c1 c2 c3 c4);
+                       b32_ch (b32_e2 c0 c1 c2 c3 c4); b32_ch (b32_e3 c0 c1 c2 c3 c4);
+                       b32_ch (b32_e4 c0 c1 c2 c3 c4); b32_ch (b32_e5 c0 c1 c2 c3 c4);
+                       b32_ch (b32_e6 c0 c1 c2 c3 c4); b32_ch (b32_e7 c0 c1 c2 c3 c4)];
+      if snd r then b32_display_w (fst r) rest else Ok r
+  end.
+
 (* base16: f.write_str(ENCODE_ALPHABET[octet])? per octet *)
 Fixpoint b16_display_w (w : writer) (bs : list N) : outcome (writer * bool) :=
   match bs with
@@ -1149,6 +1178,7 @@ Definition c18_sesym := scan_entry_symbols.
 Definition c18_smark := scan_opt_unknown_marker.
 Definition c18_encw64 (room : N) (bs : list N) := b64_display_w ([], room) bs.
 Definition c18_encw16 (room : N) (bs : list N) := b16_display_w ([], room) bs.
+Definition c18_encw32 (room : N) (bs : list N) := b32_display_w ([], room) bs.
 Definition c18_serc := serde_octets_compact.
 Definition c18_saltcd := salt_from_octets.
 Definition c18_hashcd := hash_from_octets.
